@@ -2,6 +2,7 @@
 use crate::runtime::RuntimeLimits;
 use crate::xexpr::TailedEvalResult;
 use crate::root_runtime_scope::RuntimeResult;
+use crate::runtime_violation::RuntimeViolation;
 
 fn seq_of<'a>(r: &'a RuntimeResult<TailedEvalResult<P, P, P>>) -> Option<&'a XSequence<P, P, P>> {
     match r {
@@ -34,14 +35,17 @@ fn tagged_array(n: usize, rt: &Rt) -> XExpr<P, P, P> {
 }
 
 const STEPS: [i64; 6] = [1, 2, 7, -1, -3, i64::MAX];
-/// `range(start, end, step)`: for all i64 start/end and steps from a constant table (symbolic divisors do not finish):
-/// the length is ceil(|end-start| / |step|) (0 when the range is empty), no arithmetic overflow, and element i is start + i*step
-native_harness! {
+/// `Range(start, end, step)` as the `range` native builds it (step != 0, start strictly before end in the step's
+/// direction), for all i64 start/end and steps from a constant table (symbolic divisors do not finish): the length is
+/// ceil(|end-start| / |step|) without arithmetic overflow, and element i is start + i*step.  The representation is a
+/// local value, so its variant is concrete for symex (sequences behind Rc<dyn ..> are not explorable, DESIGN 9.2).
+#[kani::proof]
+#[kani::stub(std::collections::hash_map::RandomState::new, stub_rs)]
+#[kani::stub(std::rc::Rc::drop_slow, leak_rc)]
+#[kani::stub(std::sync::Arc::drop_slow, leak_arc)]
+#[kani::stub(crate::xvalue::ManagedXValue::new, crate::xvalue::verif_kani::value_new_unlimited)]
 #[kani::unwind(8)]
 fn c15_range_len_get() {
-    let mut root = RootCompilationScope::<P, P, P>::new();
-    add_sequence_range(&mut root).unwrap();
-    let nc = last_native(&root);
     let rt: Rt = no_limits();
     let ns = crate::runtime_scope::verif_kani::bare_scope();
     let s: i64 = kani::any();
@@ -49,70 +53,137 @@ fn c15_range_len_get() {
     let mut k = 0;
     while k < STEPS.len() {
         let st = STEPS[k];
-        let args = vec![int(LazyBigint::Short(s), &rt), int(LazyBigint::Short(e), &rt), int(LazyBigint::Short(st), &rt)];
-        let r = nc(&args, &ns, false, rt.clone());
-        let (s128, e128, st128) = (s as i128, e as i128, st as i128);
-        let want_len: i128 = if st > 0 && s < e { (e128 - s128 + st128 - 1) / st128 } else if st < 0 && s > e { (s128 - e128 + (-st128) - 1) / (-st128) } else { 0 };
-        match seq_of(&r) {
-            Some(seq) => {
-                assert!(seq.len() == Some(want_len as usize), "len(range) = ceil(distance / |step|)");
-                if want_len > 0 {
-                    let i: usize = kani::any();
-                    kani::assume((i as i128) < want_len && i < 3);
-                    match seq.get(i, &ns, rt.clone()) {
-                        Ok(Ok(v)) => {
-                            assert!(int_of(&v) == Some(s128 + (i as i128) * st128), "range[i] = start + i*step");
-                            std::mem::forget(v);
-                        }
-                        other => {
-                            assert!(false, "range element is a value");
-                            std::mem::forget(other);
-                        }
-                    }
-                }
+        if (st > 0 && s < e) || (st < 0 && s > e) {
+            let seq = XSequence::<P, P, P>::Range(s, e, st);
+            let (s128, e128, st128) = (s as i128, e as i128, st as i128);
+            let want_len: i128 = if st > 0 { (e128 - s128 + st128 - 1) / st128 } else { (s128 - e128 + (-st128) - 1) / (-st128) };
+            assert!(seq.len() == Some(want_len as usize), "len(range) = ceil(distance / |step|)");
+            let i: usize = kani::any();
+            kani::assume((i as i128) < want_len && i < 3);
+            let r = seq.get(i, &ns, rt.clone());
+            match &r {
+                Ok(Ok(v)) => assert!(int_of(v) == Some(s128 + (i as i128) * st128), "range[i] = start + i*step"),
+                _ => assert!(false, "range element is a value"),
             }
-            None => assert!(false, "range yields a sequence"),
+            std::mem::forget(r);
+            kani::cover!(want_len > i64::MAX as i128, "range longer than i64::MAX");
+            std::mem::forget(seq);
         }
-        kani::cover!(want_len > i64::MAX as i128, "range longer than i64::MAX");
-        kani::cover!(want_len == 0, "empty range");
-        std::mem::forget(r);
-        std::mem::forget(args);
         k += 1;
     }
     std::mem::forget(ns);
-    std::mem::forget(root);
     std::mem::forget(rt);
 }
-}
 
-/// `get(seq, i)` on arrays of n <= 3 elements with an arbitrary integer index (Short or Long): the element at the
-/// normalised index (negative indices count from the end) or an error value; never a crash
-native_harness! {
+/// index normalisation (`value_to_idx`) on arrays of n <= 3 and on the infinite `Count`, with an arbitrary integer
+/// index (Short or Long): the normalised index (negative indices count from the end) or an error value; never a crash
+#[kani::proof]
+#[kani::stub(std::collections::hash_map::RandomState::new, stub_rs)]
+#[kani::stub(std::rc::Rc::drop_slow, leak_rc)]
+#[kani::stub(std::sync::Arc::drop_slow, leak_arc)]
+#[kani::stub(crate::xvalue::ManagedXValue::new, crate::xvalue::verif_kani::value_new_unlimited)]
 #[kani::unwind(6)]
-fn c15_get_index() {
-    let mut root = RootCompilationScope::<P, P, P>::new();
-    add_sequence_get(&mut root).unwrap();
-    let nc = last_native(&root);
+fn c15_index_normalisation() {
     let rt: Rt = no_limits();
-    let ns = crate::runtime_scope::verif_kani::bare_scope();
+    let mk = |t: i64| ManagedXValue::new(XValue::Int(LazyBigint::Short(t)), rt.clone()).unwrap();
     let n: usize = kani::any();
     kani::assume(n <= 3);
+    let infinite: bool = kani::any();
     let idx = any_canonical();
     let iv = ival(&idx);
-    let args = vec![tagged_array(n, &rt), int(idx, &rt)];
-    let r = nc(&args, &ns, false, rt.clone());
-    let norm = if iv < 0 { iv + n as i128 } else { iv };
-    if norm >= 0 && norm < n as i128 {
-        match &r {
-            Ok(TailedEvalResult::Value(Ok(v))) => assert!(int_of(v) == Some(100 + norm), "element at the normalised index"),
-            _ => assert!(false, "in-range index yields the element"),
-        }
+    let r = if infinite {
+        let seq = XSequence::<P, P, P>::Count;
+        let r = seq.value_to_idx(&idx, rt.clone());
+        std::mem::forget(seq);
+        r
     } else {
-        assert!(is_error_value(&r), "out-of-range index yields an error value");
+        let seq = match n {
+            0 => XSequence::<P, P, P>::Empty,
+            1 => XSequence::Array(vec![mk(100)]),
+            2 => XSequence::Array(vec![mk(100), mk(101)]),
+            _ => XSequence::Array(vec![mk(100), mk(101), mk(102)]),
+        };
+        let r = seq.value_to_idx(&idx, rt.clone());
+        std::mem::forget(seq);
+        r
+    };
+    match &r {
+        Ok(Ok(i)) => {
+            if infinite {
+                assert!(iv >= 0 && *i as i128 == iv, "infinite sequence: non-negative indices are themselves");
+            } else {
+                let norm = if iv < 0 { iv + n as i128 } else { iv };
+                assert!(norm >= 0 && norm < n as i128 && *i as i128 == norm, "the normalised index is in range");
+            }
+        }
+        Ok(Err(_)) => {
+            if infinite {
+                assert!(iv < 0 || iv > usize::MAX as i128, "infinite sequence: only negative or unrepresentable indices are refused");
+            } else {
+                let norm = if iv < 0 { iv + n as i128 } else { iv };
+                assert!(norm < 0 || norm >= n as i128, "only out-of-range indices are refused");
+            }
+        }
+        Err(_) => assert!(false, "no violation"),
     }
-    kani::cover!(iv == -1 && n == 3, "last element through -1");
+    kani::cover!(!infinite && iv == -1 && n == 3, "last element through -1");
     kani::cover!(iv < -(1i128 << 64), "huge negative index");
-    kani::cover!(n == 0, "empty sequence");
+    kani::cover!(infinite && iv > (1i128 << 64), "huge index into an infinite sequence");
+    std::mem::forget(r);
+    std::mem::forget(idx);
+    std::mem::forget(rt);
+}
+
+// ------------------------------------------------------------------------------------------------ C08 / C10: search budget
+/// `take_while(seq, pred)` on an array of n <= 4 with a scripted predicate and a symbolic search limit L <= 5 (or none):
+/// MaximumSearch is raised exactly when more than L elements have to be examined; otherwise the result is the prefix
+/// before the first element the predicate rejects; the predicate is called once per examined element, in order.
+native_harness! {
+#[kani::unwind(6)]
+fn c08_take_while_budget_t() {
+    let mut root = RootCompilationScope::<P, P, P>::new();
+    add_sequence_take_while(&mut root).unwrap();
+    let nc = last_native(&root);
+    let l: usize = kani::any();
+    let limited: bool = kani::any();
+    kani::assume(l <= 5);
+    let rt: Rt = runtime(RuntimeLimits { maximum_search: if limited { Some(l) } else { None }, ..Default::default() });
+    let ns = crate::runtime_scope::verif_kani::bare_scope();
+    let n: usize = kani::any();
+    kani::assume(n >= 1 && n <= 4);
+    let s4: [u8; 4] = kani::any();
+    kani::assume(s4[0] <= 1 && s4[1] <= 1 && s4[2] <= 1 && s4[3] <= 1);
+    let script: [u8; 8] = [s4[0], s4[1], s4[2], s4[3], 0, 0, 0, 0];
+    set_script(script);
+    let args = vec![tagged_array(n, &rt), scripted_predicate(&rt)];
+    let r = nc(&args, &ns, false, rt.clone());
+    // reference: k = index of the first rejected element (or n); examined = min(k + 1, n)
+    let mut k = 0;
+    while k < n && script[k] == 1 {
+        k += 1;
+    }
+    let examined = if k < n { k + 1 } else { n };
+    let (calls, seen) = callee_log();
+    if limited && examined > l {
+        assert!(matches!(r, Err(RuntimeViolation::MaximumSearch)), "more than L elements to examine: MaximumSearch");
+        assert!(calls == l, "exactly L elements are examined before the violation");
+    } else {
+        assert!(calls == examined, "the predicate is called once per examined element");
+        let mut j = 0;
+        while j < 4 {
+            if j < calls {
+                assert!(seen[j] == 100 + j as i64, "elements are examined in order");
+            }
+            j += 1;
+        }
+        match seq_of(&r) {
+            Some(s) => assert!(s.len() == Some(k), "the result is the prefix before the first rejected element"),
+            None => assert!(false, "take_while yields a sequence"),
+        }
+    }
+    kani::cover!(limited && examined == l, "exactly L elements examined: no violation");
+    kani::cover!(limited && examined == l + 1, "L+1 elements needed: violation");
+    kani::cover!(!limited && k == 4, "whole sequence accepted");
     std::mem::forget(r);
     std::mem::forget(args);
     std::mem::forget(ns);
@@ -121,89 +192,33 @@ fn c15_get_index() {
 }
 }
 
-fn check_list(seq: &XSequence<P, P, P>, want: &[i128], ns: &RuntimeScope<'_, P, P, P>, rt: &Rt) {
-    assert!(seq.len() == Some(want.len()), "length of the result");
-    let mut i = 0;
-    while i < want.len() {
-        match seq.get(i, ns, rt.clone()) {
-            Ok(Ok(v)) => {
-                assert!(int_of(&v) == Some(want[i]), "element of the result");
-                std::mem::forget(v);
-            }
-            other => {
-                assert!(false, "element is a value");
-                std::mem::forget(other);
-            }
-        }
-        i += 1;
-    }
-}
-/// push / insert / pop on arrays of n <= 3 with symbolic small indices: the list operation or an error value;
-/// the source sequence is unchanged; inserting an error value yields that error (C06)
+// ------------------------------------------------------------------------------------------------ C11: sample
+/// `sample(seq, k)` with `random` denied: PermissionError("random") and the random source is never created or drawn
+/// from, whatever sampling strategy the sizes select (ranges up to 3000 elements, k <= 3)
 native_harness! {
-#[kani::unwind(8)]
-fn c15_push_insert_pop() {
-    let rt: Rt = no_limits();
-    let ns = crate::runtime_scope::verif_kani::bare_scope();
-    let n: usize = kani::any();
-    kani::assume(n <= 3);
-    let src = tagged_array(n, &rt);
-    let i8v: i8 = kani::any();
-    kani::assume(i8v >= -5 && i8v <= 5);
-    let iv = i8v as i128;
-    let norm = if iv < 0 { iv + n as i128 } else { iv };
-    let in_range = norm >= 0 && norm < n as i128;
-    let model: [i128; 3] = [100, 101, 102];
-    let op: u8 = kani::any();
-    kani::assume(op < 3);
-    let new_is_err: bool = kani::any();
-    let mut root = RootCompilationScope::<P, P, P>::new();
-    match op {
-        0 => add_sequence_push(&mut root).unwrap(),
-        1 => add_sequence_insert(&mut root).unwrap(),
-        _ => add_sequence_pop(&mut root).unwrap(),
-    }
+#[kani::stub(crate::runtime::RuntimeStats::get_rng, trip_get_rng)]
+#[kani::unwind(6)]
+fn c11_sample_denied() {
+    let mut root = RootCompilationScope::<RecW, RecR, RecT>::new();
+    add_sequence_sample(&mut root).unwrap();
     let nc = last_native(&root);
-    let newv = if new_is_err { err_i(1, &rt) } else { int(LazyBigint::Short(7), &rt) };
-    let args = match op {
-        0 => vec![src.clone(), newv],
-        1 => vec![src.clone(), int(LazyBigint::Short(i8v as i64), &rt), newv],
-        _ => vec![src.clone(), int(LazyBigint::Short(i8v as i64), &rt)],
-    };
+    let mut set = crate::permissions::PermissionSet::default();
+    set.forbid(&RANDOM);
+    let rt: RtRec = runtime_rec(RuntimeLimits { permissions: set, ..Default::default() });
+    let ns = crate::runtime_scope::verif_kani::bare_scope();
+    let len: i64 = kani::any();
+    let k: u8 = kani::any();
+    kani::assume(len >= 1 && len <= 3000 && k <= 3);
+    let seq = val(XValue::Native(Box::new(XSequence::<RecW, RecR, RecT>::Range(0, len, 1))), &rt);
+    let args = vec![seq, int(LazyBigint::Short(k as i64), &rt)];
     let r = nc(&args, &ns, false, rt.clone());
-    let mut want = [0i128; 4];
-    let mut wl = 0usize;
-    if op != 2 && new_is_err {
-        assert!(outcome_tag(&r) == Some(err_tag(1)), "inserting an error value yields that error, not a collection");
-    } else if op == 0 {
-        let mut j = 0;
-        while j < n { want[wl] = model[j]; wl += 1; j += 1; }
-        want[wl] = 7; wl += 1;
-        match seq_of(&r) { Some(s) => check_list(s, &want[..wl], &ns, &rt), None => assert!(false, "push yields a sequence") }
-    } else if !in_range {
-        assert!(is_error_value(&r), "out-of-range index yields an error value");
-    } else if op == 1 {
-        let mut j = 0;
-        while j < n { if j as i128 == norm { want[wl] = 7; wl += 1; } want[wl] = model[j]; wl += 1; j += 1; }
-        match seq_of(&r) { Some(s) => check_list(s, &want[..wl], &ns, &rt), None => assert!(false, "insert yields a sequence") }
-    } else {
-        let mut j = 0;
-        while j < n { if j as i128 != norm { want[wl] = model[j]; wl += 1; } j += 1; }
-        match seq_of(&r) { Some(s) => check_list(s, &want[..wl], &ns, &rt), None => assert!(false, "pop yields a sequence") }
-    }
-    // the source is unchanged
-    if let XExpr::Dummy(Ok(sv)) = &src {
-        if let XValue::Native(b) = &sv.value {
-            let s = b.as_ref()._as_any().downcast_ref::<XSequence<P, P, P>>().unwrap();
-            check_list(s, &model[..n], &ns, &rt);
-        }
-    }
-    kani::cover!(op == 2 && n == 1 && in_range, "pop the only element");
-    kani::cover!(op == 2 && n == 0, "pop on the empty sequence");
-    kani::cover!(op == 1 && in_range && iv < 0, "insert at a negative index");
+    let (w, c, g) = effects();
+    assert!(is_permission_error(&r, RANDOM.id), "denied: PermissionError naming random");
+    assert!(w == 0 && c == 0 && g == 0, "denied: the random source is never touched");
+    kani::cover!(len > 2000 && k == 3, "few samples from a long sequence");
+    kani::cover!(len == 2 && k == 2, "whole short sequence");
     std::mem::forget(r);
     std::mem::forget(args);
-    std::mem::forget(src);
     std::mem::forget(ns);
     std::mem::forget(root);
     std::mem::forget(rt);
